@@ -224,6 +224,14 @@ def run(tier, v):
             rows[o["id"]] = (m, par)
             f.write(json.dumps({"id": o["id"], "seq": seq_res[m["seq"]], "par": par}) + "\n")
     r2 = vlib.tlc("TV_C10", pid=PID, workers=8, env={"TRACE": trace}, timeout=1800, heap="10g")
+
+    if tier == "thorough":
+        def mut(rows):
+            k = next(i for i, r_ in enumerate(rows) if len(r_["par"]) > 1)
+            r_ = dict(rows[k])
+            r_["par"] = r_["par"][1:]
+            return rows[:10] + [r_], "one result delivered by the pool is removed"
+        v.binding.append(vlib.binding_demo("TV_C10", trace, mut, PID, workers=4, timeout=900, heap="4g"))
     for b in r2.lines.get("BAD", []):
         m, par = rows[b["id"]]
         v.violation({"crate": m["crate"], "workers": m["nw"], "batch": m["batch"], "connections_that_differ": b["conns"], "sequential_results": b["nseq"], "pool_results": b["npar"],
